@@ -21,7 +21,11 @@
    NOT PROVED: that TensorMath.eigen_sym33_unit satisfies eigh_ok (existence is now a theorem; accuracy of the routine in binary64 is
    property C12) and that jax.scipy.linalg.expm (Pade approximant, scaling and squaring) equals the spectral exponential expm_R (it does
    so only up to the Pade truncation error, ~1e-16 relative); both are evaluated numerically by the harness on every run (stream `spectral`,
-   now also with two different solvers and on degenerate spectra).  Binary64 rounding is outside the theorems. *)
+   now also with two different solvers and on degenerate spectra).  Binary64 rounding is outside the theorems.
+   Round 5: the one place where the implementation's solver did NOT meet eigh_ok -- (nearly) degenerate spectra inside a compiled batch
+   (jit(vmap)), former finding C11-F1: the reported stored energy grew during a hold, contradicting C11_relaxation_* -- is repaired in
+   /repo e63b801; no finding is open for this property: the harness replays the witness on every run and checks exactly and nearly
+   degenerate states in compiled batches (relaxation, det Fv, dissipation, batched = single call) at the tolerances used everywhere else. *)
 From Coq Require Import Reals List.
 From OV.base Require Import Num.
 From OV.model Require Import M_C08 M_C11 M_C11s.
